@@ -580,6 +580,11 @@ func (fr *frame) enterBlock(b *ssa.BasicBlock) (string, *state) {
 	// invariant on entry
 	for k, in := range entryIns {
 		env := fr.loopEnv(li, func(phi *ssa.Phi) string { return fr.val(phi.Edges[entryIdx[k]]) }, in.st)
+		for _, c := range li.spec.Defines {
+			if t, err := env.boolExpr(c.Text); err == nil {
+				e.assume(implies(in.cond, t))
+			}
+		}
 		for _, c := range li.spec.Invariants {
 			t, err := env.boolExpr(c.Text)
 			if err != nil {
@@ -616,6 +621,15 @@ func (fr *frame) enterBlock(b *ssa.BasicBlock) (string, *state) {
 	}
 	bc := or(conds...)
 	env := fr.loopEnv(li, func(phi *ssa.Phi) string { return fr.vals[phi] }, st)
+	for _, c := range li.spec.Defines {
+		t, err := env.boolExpr(c.Text)
+		if err != nil {
+			e.errf("%s:%d: %v", c.File, c.Line, err)
+			continue
+		}
+		e.assume(implies(bc, t))
+		e.assumedPre["ghost definition #"+c.Label] = c.Text
+	}
 	for _, c := range li.spec.Invariants {
 		t, err := env.boolExpr(c.Text)
 		if err != nil {
@@ -674,7 +688,7 @@ func (fr *frame) loopEffects(li *loopInfo) *effSet {
 						es.regs["mem:"+typeKey(i.Type().Underlying().(*types.Pointer).Elem().Underlying().(*types.Array).Elem())] = true
 					}
 				} else {
-					es.regs[storeRegion(i)] = true
+					es.regs["mem:"+typeKey(i.Type().Underlying().(*types.Pointer).Elem())] = true
 				}
 			case *ssa.MakeSlice:
 				es.regs["mem:"+typeKey(i.Type().Underlying().(*types.Slice).Elem())] = true
@@ -743,6 +757,7 @@ func (fr *frame) iterRegion(v ssa.Value) string {
 // loopEnv builds the name environment for invariants of loop li.
 func (fr *frame) loopEnv(li *loopInfo, phiVal func(*ssa.Phi) string, st *state) *specEnv {
 	env := fr.baseEnv(st)
+	env.pre = fr.entry
 	env.lookup = func(name string) (binding, bool) {
 		// 1. phis of this header, then enclosing headers
 		for l := li; l != nil; l = l.parent {
@@ -761,10 +776,13 @@ func (fr *frame) loopEnv(li *loopInfo, phiVal func(*ssa.Phi) string, st *state) 
 		}
 		if name == "iter0" && li.isRangeIx {
 			for _, instr := range li.header.Instrs {
-				if phi, ok := instr.(*ssa.Phi); ok {
+				phi, ok := instr.(*ssa.Phi)
+				if !ok {
+					break
+				}
+				if phi.Comment == "rangeindex" {
 					return binding{term: app("+", phiVal(phi), "1"), typ: phi.Type()}, true
 				}
-				break
 			}
 		}
 		return fr.lookupLocal(name, li.header, st)
